@@ -208,9 +208,17 @@ class MibCompiler(object):
         symbolTableMap = {}
         mibsToParse = [x for x in mibnames]
         canonicalMibNames = {}
+        lookedUpMibs = set()
 
         while mibsToParse:
             mibname = mibsToParse.pop(0)
+
+            # a name is looked up once per call, even if the file found under
+            # that name holds a module that is called differently
+            if mibname in lookedUpMibs:
+                continue
+
+            lookedUpMibs.add(mibname)
 
             if mibname in parsedMibs:
                 debug.logger & debug.flagCompiler and debug.logger('MIB %s already parsed' % mibname)
